@@ -1,5 +1,6 @@
-from . import props_rules, props_parse
+from . import props_rules, props_parse, props_tree
 
 CHECKS = {}
 CHECKS.update(props_rules.CHECKS)
 CHECKS.update(props_parse.CHECKS)
+CHECKS.update(props_tree.CHECKS)
